@@ -60,7 +60,7 @@ class Report:
 
 
 def run_property(pid, tier, seed, extract, cfgs, here, known, t0, verbose=False, facts_only=False):
-    ev_dir = os.path.join(here, 'evidence')
+    ev_dir = os.environ.get('VERIF_EVIDENCE_DIR') or os.path.join(here, 'evidence')
     os.makedirs(os.path.join(ev_dir, 'replay'), exist_ok=True)
     ev_path = os.path.join(ev_dir, '%s.json' % pid)
     try:
